@@ -83,13 +83,12 @@ def tempK(lab, t):
 def constructor_accepts(pg, iso):
     """Would the constructor accept the isotherm's own description (`to_dict()`)?"""
     from pygaps.core.baseisotherm import BaseIsotherm
-    from pygaps.utilities.exceptions import ParameterError
     d = iso.to_dict()
     try:
         BaseIsotherm(**d)
         return True
-    except ParameterError:
-        return False
+    except Exception:  # noqa  refused is refused, whatever the class: the constructor of the pinned tree refuses an invalid material unit under a
+        return False    # gas / liquid-volume loading basis with KeyError (its message indexes the wrong table; E17 observation 2, no property states the class)
 
 
 def clone(pg, iso):
